@@ -22,7 +22,6 @@ struct CfgNumBase : CfgCommon {
     static constexpr bool hasCounters = false;
     using Rhs = double;
     static constexpr long NbRhs = 4;
-    template <class PK> using TopAlgo = NoTop;
 };
 struct CfgRot : CfgNumBase {
     static constexpr int P = 4;
